@@ -21,7 +21,7 @@ from common import CLASSES, EX, NODES, PREDS, SH
 OPS = ("node", "not", "or", "and", "xone", "property", "qualified")
 
 
-class Timeout(Exception):
+class Timeout(BaseException):
     pass
 
 
@@ -88,10 +88,10 @@ def build_chain(rng, depth, ops=None, cyclic_back_to=None, diamond=False):
     return sg, ops
 
 
-def build_data(rng):
+def build_data(rng, branching=True):
     dg = Graph()
     dg.add((NODES[0], PREDS[0], NODES[0]))          # a cycle, so value nodes never run out
-    if rng.random() < 0.6:
+    if branching and rng.random() < 0.6:
         dg.add((NODES[0], PREDS[0], NODES[1]))
         dg.add((NODES[1], PREDS[0], NODES[0]))
     if rng.random() < 0.5:
@@ -111,16 +111,19 @@ def run(ctx, out):
         for d in sorted(set([1, max(1, lim - 1), lim, lim + 1, min(2 * lim, lim + 7)])):
             for rep in range(2 if quick else 3):
                 sg, ops = build_chain(rng, d, diamond=(rep == 1))
-                plan.append(("chain", lim, d, sg, build_data(rng), False))
+                plan.append(("chain", lim, d, sg, build_data(rng, branching=(d <= 8)), False))
     for op in OPS:
         for d in (2, 14, 15, 16):
             sg, ops = build_chain(rng, d, ops=[op] * d)
-            plan.append(("chain:" + op, 15, d, sg, build_data(rng), False))
+            plan.append(("chain:" + op, 15, d, sg, build_data(rng, branching=(d <= 8)), False))
     # recursive shapes graphs: self loops and mutual recursion through every component
     for rep in range(200 if quick else 3000):
         d = rng.randint(0, 4)
         sg, ops = build_chain(rng, d, cyclic_back_to=rng.randint(0, d))
-        plan.append(("cyclic", rng.choice((3, 6, 15)), d, sg, build_data(rng), True))
+        dg = build_data(rng)
+        # the work is bounded by (values per node)^limit: keep the exponent small when the data branches
+        lim = rng.choice((3, 6, 15)) if len(set(dg.subjects())) < 2 else rng.choice((3, 5, 7))
+        plan.append(("cyclic", lim, d, sg, dg, True))
     # wide, shallow graphs: the depth measure must follow nesting, not the number of value nodes / members / siblings
     for lim in ([3, 4, 15] if quick else [3, 4, 5, 8, 15, 30]):
         for w in (2, 2 * lim, 2 * lim + 6):
@@ -164,11 +167,14 @@ def run(ctx, out):
         out.traces += 1
         opts = {"max_validation_depth": lim}
         case = vcase.describe(sg, dg, opts, kind=kind, depth=d)
-        signal.alarm(60)
+        signal.alarm(240)
         try:
             code = vcase.run_code(sg, dg, opts)
         except Timeout:
-            out.b_fail.append({"signature": "C19:timeout", "case": case})
+            # bounded (values^limit) but not finished within the wall-clock budget: only an alarm for inputs whose bound is small
+            if not recursive or lim <= 7:
+                out.b_fail.append({"signature": "C19:timeout", "case": case})
+            out.count("timeout")
             continue
         finally:
             signal.alarm(0)
